@@ -1176,7 +1176,7 @@ func (m *Machine) loadGlobal(g *GlobalPtrV, t types.Type) Val {
 	short := name[strings.LastIndex(name, ".")+1:]
 	if typeKey(t) == "error" || strings.HasPrefix(short, "Err") {
 		c := m.E.D.Const("err_"+sanitize(short), SInt)
-		m.E.D.Axiom(fmt.Sprintf("(> %s 0)", c.S))
+		m.E.D.Axiom(fmt.Sprintf("(and (> %s 0) (< %s 900))", c.S, c.S))
 		return c
 	}
 	if s, ok := leafSortOf(t); ok {
@@ -1191,7 +1191,7 @@ func (m *Machine) loadGlobal(g *GlobalPtrV, t types.Type) Val {
 	}
 	if typeKey(t) == "*cosmossdk.io/errors.Error" {
 		c := m.E.D.Const("err_"+sanitize(short), SInt)
-		m.E.D.Axiom(fmt.Sprintf("(> %s 0)", c.S))
+		m.E.D.Axiom(fmt.Sprintf("(and (> %s 0) (< %s 900))", c.S, c.S))
 		return c
 	}
 	return &OpaqueV{Tag: "global:" + name, Typ: t}
